@@ -100,6 +100,7 @@ class UnitBuild:
                 ctx.fn_mode[cn] = sel.get('mode', ctx.call_mode(t))
                 ctx.fn_queue.append(t)
             ctx.lower_all()
+            self._need_consts()
             return self.render()
         if cfg.get('ast_check'):
             try:
@@ -150,7 +151,12 @@ class UnitBuild:
             if len(hits) != 1:
                 raise Unsupported('contract pattern %s matches %d lowered functions' % (pat, len(hits)))
             self.cfg['contracts'][hits[0]] = cc
+        self._need_consts()
+        return self.render()
+
+    def _need_consts(self):
         # constants the contracts mention although the lowered bodies do not
+        cfg, ctx = self.cfg, self.ctx
         for spec in cfg.get('need_consts', []):
             alias, name = spec.split('.')
             rid = [i for i, a in ctx.rec_alias.items() if a == alias]
@@ -161,7 +167,7 @@ class UnitBuild:
                 raise Unsupported('need_consts: %s has no static member %s' % (r.qname, name))
             ctx.need_rec(r)
             ctx.const_ref(r, r.statics[name])
-        return self.render()
+        ctx.lower_all()      # functions used only by constant initialisers (bitWidth, contain, ...)
 
     # ------------------------------------------------------------------ rendering
     def contract_text(self, cname, for_decl):
@@ -476,8 +482,10 @@ def verify(cfile, workdir, cfg, target_cname, build):
         cmd += ['--unwinding-assertions']
     if cfg.get('object_bits'):
         cmd += ['--object-bits', str(cfg['object_bits'])]
-    if cfg.get('sat_solver'):
-        cmd += ['--sat-solver', cfg['sat_solver']]
+    # CaDiCaL is the default back end (MiniSat stalled on some units that CaDiCaL closes in seconds); 'minisat2' selectable per unit
+    solver = cfg.get('sat_solver', 'cadical')
+    if solver and solver != 'minisat2':
+        cmd += ['--sat-solver', solver]
     cmd += cfg.get('cbmc_extra', [])
     res['cmds'].append(' '.join(cmd))
     rc, out, err, dt = run(cmd, cfg.get('timeout', 600), cfg.get('mem_gb', 8))
